@@ -45,6 +45,13 @@ MetaFiles == {<< <<"#META " \o k \o ": " \o a>> >> \o MetaBuilding : k \in MetaK
              \cup {<< <<"#META " \o k \o ": 0.1", a, "0.3">> >> \o MetaBuilding : k \in {"CTE_RED1", "CTE_RED2"}, a \in AtomSet}
              \cup {<< <<"#META " \o k \o ": (0.1", a, "0.3)">> >> \o MetaBuilding : k \in {"CTE_RED1"}, a \in AtomSet}
              \cup {<< <<"#META " \o k \o ": { ren: 0.1", "nren: " \o a, "co2: 0.3 }">> >> \o MetaBuilding : k \in {"CTE_RED2"}, a \in AtomSet}
+             \* elements without a colon, missing or extra elements, unbalanced or empty brackets
+             \cup {<< <<"#META " \o k \o ": { ren: 0.1", a, "co2: 0.3 }">> >> \o MetaBuilding : k \in {"CTE_RED1"}, a \in AtomSet}
+             \cup {<< <<"#META CTE_RED2: " \o v>> >> \o MetaBuilding : v \in {"{}", "{ }", "()", "(", ")", "{", "}", "{ ren: 0.1 }", "{ : }", "{ ren }", "(0.1)", "{(", "({})"}}
+             \cup {<< <<"#META CTE_RED1: { ren: 0.1", "nren: 0.2", "co2: 0.3", "}">> >> \o MetaBuilding,
+                    << <<"#META CTE_RED1: (0.1", "0.2)">> >> \o MetaBuilding,
+                    << <<"#META CTE_RED1: 0.1", "0.2", "0.3", "0.4">> >> \o MetaBuilding,
+                    << <<"#META CTE_RED2: { ren: 0", "nren: 1", "3", "co2: 0", "3 }">> >> \o MetaBuilding}
 
 Init ==
   \/ kind = "comps" /\ base = -1 /\ d = Depth /\ file \in MetaFiles
